@@ -57,11 +57,10 @@ Case(j) ==
    x |-> [n |-> Len(fs), at |-> pr.at, bal |-> fs \in Balanced(Len(fs)), strayelseif |-> \E q \in 1..Len(fs) : fs[q] \in ElseIf],
    exp |-> [status |-> S.status, out |-> S.outs[1], log |-> <<>>]]
 Out == v_lvl < 2 \/ Emit(Case(v_idx))
-(* design: the parser accepts every balanced sequence of the grammar; what it accepts beyond them contains an elseif with no if
-   to belong to, which parseTag reads as an if (a leniency of the code that the parser model follows and this invariant names);
+(* design: the parser accepts exactly the balanced sequences of the grammar (an elseif with no if to belong to was read as an
+   if by the code until abda998; the model followed that leniency and this invariant named it - both are gone);
    the reference decides every case *)
 AcceptsExactlyBalanced == v_lvl = 2 => LET c == Case(v_idx) IN
-  /\ c.x.bal => c.fam = "src-valid"
-  /\ (c.fam = "src-valid" /\ ~c.x.bal) => c.x.strayelseif
+  (c.x.bal <=> c.fam = "src-valid")
 Decided == v_lvl = 2 => Case(v_idx).exp.status \in {"ok", "err"}
 =============================================================================
